@@ -132,6 +132,7 @@ type histSpec struct {
 	imode, nts, deadline bool
 	auth                 bool // SCION: Auth.Enabled (packet authenticator, DRKey)
 	sameIA               bool // SCION: the server is in the client's ISD-AS
+	addrtype             bool // SCION: case kind scion.addrtype
 	ops                  []opSpec
 }
 
@@ -722,6 +723,11 @@ func main() {
 				for j := 0; j < 4; j++ {
 					w.runHistSCION(genAllFailAuth(r), "scion.allfailauth")
 				}
+			}
+			// the address type of the source / destination host
+			for j := 0; j < n/20+2; j++ {
+				h := genHistAddrType(r)
+				w.runHistSCION(h, scionKind(h))
 			}
 		}(i)
 	}
